@@ -1,8 +1,8 @@
 // ===== TRUSTED SHIM: scale-info 2.11.5 portable-form datatypes (public fields only) =====
 // Field names, order and types mirror scale-info's `pub` fields (PortableForm: String = String,
 // Type = UntrackedSymbol<TypeId>); the private PhantomData marker of UntrackedSymbol is dropped.
-// `PortableRegistry::resolve` is upstream portable.rs `self.types.get(id as usize).map(|ty| &ty.ty)` written as an if/else;
-// its contract below is verified against that body (positional lookup: the `id` FIELD of an entry is not consulted).
+// `PortableRegistry::resolve` is NOT part of this shim: units that need it extract its body from scale-info's own
+// source (registry:scale-info/src/portable.rs) and verify it (units/U-SCALEINFO/contracts.vc).
 #[derive(Clone, Copy)]
 pub struct UntrackedSymbol { pub id: u32 }
 
@@ -40,13 +40,3 @@ pub struct Type { pub path: Path, pub type_params: Vec<TypeParameter>, pub type_
 pub struct PortableType { pub id: u32, pub ty: Type }
 
 pub struct PortableRegistry { pub types: Vec<PortableType> }
-
-impl PortableRegistry {
-    pub fn resolve(&self, id: u32) -> (r: Option<&Type>)
-        ensures
-            (id as int) < self.types@.len() ==> r == Some(&self.types@[id as int].ty),
-            (id as int) >= self.types@.len() ==> r is None,
-    {
-        if (id as usize) < self.types.len() { Some(&self.types[id as usize].ty) } else { None }
-    }
-}
